@@ -9,7 +9,15 @@ One execute(plan) = one *history* (first run) followed by one *restart per crash
              already hold a previous stop time, reserved 'edzed-*' keys, one foreign key and
              states of an earlier run; 1-10 external events incl. rejected ones, unknown events,
              parameter errors and one failing handler; then a regular stop - or a failing
-             start() / a failing initialisation instead.
+             start() / a failing initialisation instead - or a termination around the first
+             loop iteration after the start() calls (a block's start() calls circuit.abort(), a
+             service task created by start() fails in its first step, abort()/shutdown/cancel
+             by the application 0-2 loop iterations after create_task) with states of an
+             earlier run in the storage.
+ interlock   a timed FSM (generated / Timer / InputExp) may have an on_output event (filtered
+             to the first output, previous == UNDEF) to a relay block that synchronously sends
+             an event back, unless the FSM is inside event() (normal initialisation): during
+             a restoration the event arrives while the restored output is being set.
  restarts    for EVERY journal position k of the first run's storage (before the first write,
              after each save of the initialisation, of each event, of each timer event, of each
              single write of the stop sequence, after the stop timestamp) the same circuit
@@ -24,8 +32,9 @@ Oracle (models/persist_model.py, written from the documentation):
              initialisation, at every idle driver instant and right before the stop:
              storage[key] == get_state() for persistent sync_state blocks (FSM timers compared as
              absolute times); sync_state off: writes only at init and stop; not persistent: never;
-             after a failing handler: no further write of that block; start() failed: no write at
-             all; regular stop: every persistent block saved with the state it had immediately
+             after a failing handler: no further write of that block; start-up failed (a start()
+             call failed, or the simulation was terminated before the initialisation of any
+             sequential block began): no write at all and no entry of a block deleted; regular stop: every persistent block saved with the state it had immediately
              before the stop, and a float 'edzed-stop-time' (== wall clock) is written (no order
              between them is demanded; a timer event handled during the asynchronous clean-up may
              save its block once more afterwards); every value ever written equals a state the
@@ -36,6 +45,11 @@ Oracle (models/persist_model.py, written from the documentation):
              time (not early, within latency); a timer that ran out during the downtime, an
              expired state (stop timestamp of the snapshot + expiration < now) or expiration <= 0
              -> normal initialisation (entry action and on_enter event present, fresh timer);
+             with an interlock the restart must look like "restored, then the event handled as a
+             normal event of the restored state" (the model steps the FSM: exit/entry actions of
+             THAT transition run, old timer gone, fresh timer of the new state or none, on_enter
+             of the state entered); exactly as many pending timer handles as the state says
+             (0/1), and while the loop runs on the new timer is the first to fire / nothing fires;
              decisions that fall within 0.1 ms of the limit accept both outcomes; keys of removed
              blocks and foreign keys deleted, 'edzed-*' keys kept; after the start the storage
              again equals the states.
@@ -43,7 +57,7 @@ Oracle (models/persist_model.py, written from the documentation):
              stop sequence), read errors and garbage entries at the restart. Only the relaxed rule
              is applied to the affected key: absent or a state the block really had.
 
-Genuine defect found on the unchanged tree (kept red, see known/C06-fired-timer-saved-as-pending.json)
+Genuine defect found by this check (F22, meanwhile repaired in /repo; replay known/C06-fired-timer-saved-as-pending.json)
   C06/restore/valid-state-discarded/fired-timer-saved-as-pending
     FSM.get_state() reports a timer that has already fired as still pending: _active_timer is not
     cleared when the timer callback runs. When the timed event is rejected (no transition / cond
@@ -88,6 +102,9 @@ MUTANTS (quick tier, VERIF_REPO=<scratch copy with the candidate repair + one mu
        changes the state: the timer is gone)
    M23 stop timestamp written before the states (NOT a violation:      quiet   (exit 0, as it should be)
        the property does not order the writes)
+  seeded changes (tools/seeded.py, quick tier): C06-s1 (start_ok set before the first
+  sleep(0)) start-failed/written; C06-s2 write-after-failed-handler; C06-s3 (restored timer
+  started after set_output) restore/timer-handles, restore/interlock/timer, /stale-timer.
   A first candidate repair of the defect above (get_state() treating a handle that is no longer
   scheduled as "no timer") was itself refuted by this check: storage-differs/before-stop and
   stop/saved-state-differs when the stop falls into the same instant as the expiration.
@@ -110,14 +127,16 @@ edzed = seams.install()
 
 PROP = 'C06'
 LEVEL = 'fault_enumeration'
-RUNS = {'quick': 10000, 'thorough': 400000}
+RUNS = {'quick': 6000, 'thorough': 400000}
 CHUNK = 50
 CHUNK_TIMEOUT = 600
 RULE = ("one run = one generated history (circuit of 1-4 blocks out of persistent Input, Counter, "
         "generated timed FSM with sdata, Timer, InputExp, TimeDate, TimeSpan x sync_state on/off x "
         "expiration None/<=0/short/long x initial storage content; 1-10 events incl. rejected, "
         "unknown, parameter errors, a failing handler; regular stop / failing start() / failing "
-        "initialisation; optional storage fault) PLUS one restart for every journal position of "
+        "initialisation / termination in the first loop iteration after start(); optional "
+        "interlock relay answering the first output of a timed FSM; optional storage fault) "
+        "PLUS one restart for every journal position of "
         "its storage (crash point) after a drawn downtime on a new loop; the first 28 run indices "
         "walk block kind x sync_state x scenario systematically; non-trivial = at least one "
         "restart restored at least one block from a snapshot; distinct = hash of (block kinds and "
@@ -131,14 +150,19 @@ REACH_EXPECTED = ['restored', 'restored_with_timer', 'restored_timer_fired', 'ti
                   'unknown_key_removed', 'reserved_key_kept', 'sync_off_stale_state_restored',
                   'rejected_event_saved', 'param_error', 'unknown_event', 'decision_in_band',
                   'write_error_fired', 'read_error_fired', 'garbage_injected',
-                  'first_run_restored', 'block_removed_in_restart', 'timed_event_rejected']
+                  'first_run_restored', 'block_removed_in_restart', 'timed_event_rejected',
+                  'terminated_before_init', 'interlock_transition_at_restore',
+                  'interlock_event_rejected']
 ASSUMPTIONS = [
     "expiration is measured as documented ('since the program stop'): against the 'edzed-stop-time' "
     "entry present in the restarted storage; a crash snapshot carries the stop time of the previous "
     "regular stop (or none: then no expiry check is demanded); the literal reading 'age of the "
     "individual save' is only counted (counter literal_age_disagrees)",
-    "'start-up failed' = a start() call failed; for a failed initialisation and under storage faults "
-    "only 'absent or a state the block really had' is demanded",
+    "'start-up failed' = a start() call failed, or the simulation ended before the initialisation "
+    "of any sequential block began (all init_steps_completed == 0); for a failed initialisation "
+    "and under storage faults only 'absent or a state the block really had' is demanded",
+    "the interlock relay decides 'the FSM is being restored' by the harness' own event depth "
+    "counter (the FSM is not inside event()); its event is always one of the FSM's own events",
     "timestamps are compared with 50 us tolerance; a restore decision (timer ran out / state "
     "expired) whose limit lies within 0.1 ms of the start instant accepts both outcomes",
     "a restored timer may fire late by the drawn latency + 100 x per-callback cost + 0.2 ms",
@@ -153,7 +177,7 @@ ASSUMPTIONS = [
 KINDS = ['input', 'counter', 'gfsm', 'timer', 'inputexp', 'timedate', 'timespan']
 VALUES = [0, 1, 2, 7, 'a', 'v', None, True, [1, 2], {'k': 1}, 3.5, '']
 EXPIRATIONS = [None, None, None, None, 0, -1, 0.5, 5.0, 60.0, 3600.0, '2s', '1m']
-SCENARIOS = ['stop', 'stop', 'stop', 'handler_fail', 'start_fail', 'init_fail', 'stop']
+SCENARIOS = ['stop', 'stop', 'stop', 'handler_fail', 'start_fail', 'init_fail', 'stop', 'abort_start']
 START_DATES = [[2023, 12, 31], [2024, 2, 28], [2024, 2, 29], [2024, 6, 14], [2024, 10, 26]]
 MAX_CRASH_POINTS = 120
 FIRE_HORIZON = 150.0
@@ -313,6 +337,10 @@ def gen_block(rng, kind, idx, ctxd):
         utc = rng.random() < 0.3
         local_start = ctxd['start_wall'] + (0 if utc else ctxd['tz_s'] * US)
         b['cfg'] = rnd_cal_cfg(rng, 'td' if kind == 'timedate' else 'ts', utc, local_start)
+    if pm.is_fsm(kind) and rng.random() < 0.35:
+        # interlock: the first output (previous == UNDEF) reaches a relay block that sends this
+        # event back at once - unless the FSM is inside event() (normal initialisation)
+        b['kick'] = gen_event(rng, b, ctxd, kick=True)
     return b
 
 
@@ -324,7 +352,7 @@ def block_events(b):
     return ['put']
 
 
-def gen_event(rng, b, ctxd, boom=False):
+def gen_event(rng, b, ctxd, boom=False, kick=False):
     """One external event for block b: {'ev', 'data'}."""
     kind = b['kind']
     r = rng.random()
@@ -342,7 +370,7 @@ def gen_event(rng, b, ctxd, boom=False):
         if kind == 'timedate':
             return {'ev': 'reconfig', 'data': {'times': 'garbage'}}
         return {'ev': 'reconfig', 'data': {'span': 'garbage'}}
-    if r < 0.06:
+    if r < 0.06 and not kick:
         return {'ev': 'bogus', 'data': {}}
     if kind == 'input':
         if r < 0.13:
@@ -458,8 +486,18 @@ def gen(rng, tier, index=0):
         op.update({'t': t, 'blk': b['name'], 'boom': boom})
         ops.append(op)
     stop_at = round(t + rng.choice([0.0, 0.001, 0.3, 1.0]), 6)
+    abort = None
     if scenario == 'start_fail':
         blocks.insert(rng.randrange(len(blocks) + 1), {'kind': 'badstart', 'name': 'bad'})
+    elif scenario == 'abort_start':
+        # the simulation is terminated around the first loop iteration after the start() calls
+        how = rng.choice(['start_abort', 'task_fail', 'harness', 'harness'])
+        abort = {'how': how, 'steps': rng.choice([0, 1, 1, 1, 2]),
+                 'mode': rng.choice(['abort', 'shutdown', 'cancel'])}
+        if how == 'start_abort':
+            blocks.insert(rng.randrange(len(blocks) + 1), {'kind': 'abortstart', 'name': 'abst'})
+        elif how == 'task_fail':
+            blocks.insert(rng.randrange(len(blocks) + 1), {'kind': 'badtask', 'name': 'btask'})
     elif scenario == 'init_fail':
         blocks.insert(rng.randrange(len(blocks) + 1), {'kind': 'noinit', 'name': 'noinit'})
     # ---- initial storage
@@ -468,8 +506,10 @@ def gen(rng, tier, index=0):
                'foreign': rng.choice([None, None, "<Input 'ghost'>", 'foo']),
                'edzed': rng.choice([[], [], [['edzed-note', 'x']], [['edzed-version', [1, 2]]]]),
                'prev': {}}
+    if scenario == 'abort_start' and initial['stop_age'] is None and rng.random() < 0.8:
+        initial['stop_age'] = rng.choice([5.0, 100.0])
     for b in real:
-        if b['persistent'] and rng.random() < 0.25:
+        if b['persistent'] and (rng.random() < 0.25 or scenario == 'abort_start'):
             pv = gen_prev(rng, b)
             if pv is not None or b['kind'] == 'input':
                 initial['prev'][b['name']] = pv
@@ -522,7 +562,7 @@ def gen(rng, tier, index=0):
         for k in (knobs, knobs2):
             k['cost_ns'] = min(k['cost_ns'], 20_000)
     return {'knobs': knobs, 'knobs2': knobs2, 'start_wall_us': start_wall, 'tz_s': tz_s,
-            'scenario': scenario, 'blocks': blocks, 'ops': ops, 'stop_at': stop_at,
+            'scenario': scenario, 'abort': abort, 'blocks': blocks, 'ops': ops, 'stop_at': stop_at,
             'initial': initial, 'second': second, 'downtimes': downtimes, 'fault': fault}
 
 
@@ -535,6 +575,43 @@ class BadStart(edzed.SBlock):
 
     def init_regular(self):
         self.set_output(0)
+
+
+class AbortStart(edzed.SBlock):
+    """start() succeeds but reports a fatal error to the simulator."""
+    def start(self):
+        super().start()
+        self.circuit.abort(Injected('abort() called from start()'))
+
+    def init_regular(self):
+        self.set_output(0)
+
+
+class BadTask(edzed.AddonMainTask, edzed.SBlock):
+    """Its service task fails in its very first step."""
+    async def _maintask(self):
+        raise Injected('main task failed in its first step')
+
+    def init_regular(self):
+        self.set_output(0)
+
+
+class Relay(edzed.SBlock):
+    """Interlock: answers the FSM's first output with an event - synchronously."""
+    def init_regular(self):
+        self.set_output(0)
+
+    def _event(self, etype, data):
+        sim, name = self.x_sim, self.x_fsm
+        if sim.depth.get(name, 0) == 0:
+            # the FSM is not inside event(): its output was set by the restoration
+            sim.kicked[name] = sim.kicked.get(name, 0) + 1
+            self.x_event.send(self, **fsmlib.real_data(self.x_data))
+        return None
+
+
+def first_output(data):
+    return data.get('previous') is edzed.UNDEF
 
 
 class NoInit(edzed.SBlock):
@@ -574,6 +651,7 @@ class Sim:
         self.bykey = {}
         self.stop_ref = {}          # key -> state at the last event boundary before the stop save
         self.event_writes = set()   # journal indices of saves made by events
+        self.kicked = {}            # name -> number of interlock events sent back to the FSM
         self.last_state = {}
         self.enters = {}            # name -> [[state, during_init]]
         self.onenter = {}           # name -> [during_init]
@@ -581,6 +659,7 @@ class Sim:
         self.beh = []
         self.driver_op = None
         self.start_raised = False
+        self.start_failed = False   # start-up failed before any SBlock initialisation began
         self.plan_error = None
         self.circuit = None
         k = run.knobs
@@ -621,8 +700,17 @@ class Sim:
             return BadStart(name, x_sim=self)
         if kind == 'noinit':
             return NoInit(name)
+        if kind == 'abortstart':
+            return AbortStart(name)
+        if kind == 'badtask':
+            return BadTask(name)
         pk = {'persistent': b['persistent'], 'sync_state': b['sync_state'],
               'expiration': b['expiration']}
+        if b.get('kick') and pm.is_fsm(kind):
+            kick = b['kick']
+            relay = Relay(f"relay_{name}", x_sim=self, x_fsm=name, x_data=kick.get('data', {}),
+                          x_event=edzed.Event(name, kick['ev']))
+            pk['on_output'] = edzed.Event(relay, 'kick', efilter=first_output)
         if kind == 'input':
             kw = {'check': check_fn} if b.get('check') else {}
             return edzed.Input(name, initdef=b['initdef'], **kw, **pk)
@@ -695,16 +783,20 @@ class Sim:
         except Exception:   # pylint: disable=broad-except
             return False, None
 
-    def has_live_timer(self, name):
-        """Is a timer handle of this FSM pending (scheduled, or due and about to run)?"""
+    def live_timers(self, name):
+        """Number of pending timer handles of this FSM (scheduled, or due and about to run)."""
         blk = self.blocks[name]
         loop = self.loop
         ready = [h for h in loop._ready if hasattr(h, '_when') and not h._cancelled]
+        n = 0
         for h in loop.live_timers() + ready:
             cb = h._callback
             if getattr(cb, '_sim_blk', None) is blk or getattr(cb, '__self__', None) is blk:
-                return True
-        return False
+                n += 1
+        return n
+
+    def has_live_timer(self, name):
+        return self.live_timers(name) > 0
 
     def ack(self, name, at_rest=True):
         ok, cur = self.cur_state(name)
@@ -861,12 +953,19 @@ class Sim:
         R = self.R
         journal = self.storage.journal
         bykey = {key: name for name, key in self.keys.items()}
-        if self.start_raised:
+        if self.start_failed:
+            # start-up failed before the initialisation of the sequential blocks began:
+            # nothing may be written, no entry of a block of this circuit may disappear
             sets = [e for e in journal if e[0] == 'set']
-            if sets:
-                self.violate('C06/start-failed/written',
-                             f"start() failed, but the storage was written: "
-                             f"{canon([[e[1], e[2]] for e in sets[:4]])}")
+            dels = [e for e in journal if e[0] == 'del' and e[1] in bykey
+                    and self.specs[bykey[e[1]]]['persistent']]
+            if sets or dels:
+                what = 'a start() call failed' if self.start_raised else \
+                    'the simulation was terminated before any block was initialised'
+                self.violate('C06/start-failed/written' if sets else 'C06/start-failed/entries-deleted',
+                             f"{what}, but the storage was changed: written "
+                             f"{canon([[e[1], e[2]] for e in sets[:4]])}, deleted "
+                             f"{canon([e[1] for e in dels[:4]])}")
         for i, (op, key, value, stamp) in enumerate(journal):
             if op != 'set':
                 continue
@@ -985,6 +1084,35 @@ class Sim:
                                                "event(s) were sent during the start")
         return None, None
 
+    def match_kicked(self, b, name, kres, cur, now_lo, now_hi):
+        """Restored, then the interlock event handled as a normal event of the restored state."""
+        blk = self.blocks[name]
+        parts = pm.split_fsm_state(cur)
+        exp_state, exp_sdata = kres['state']
+        if parts is None or parts[0] != exp_state or parts[2] != exp_sdata:
+            return 'interlock/state-differs', (f"state {canon(cur)}, expected state {exp_state!r} "
+                                               f"with sdata {canon(exp_sdata)}")
+        if kres['timer'] is None:
+            if parts[1] is not None:
+                return 'interlock/stale-timer', (f"state {exp_state!r} must have no timer, "
+                                                 f"get_state() reports {canon(parts[1])}")
+        elif parts[1] is None or not (now_lo + kres['timer'] - pm.TS_TOL <= parts[1]
+                                      <= now_hi + kres['timer'] + pm.TS_TOL):
+            return 'interlock/timer', (f"timer deadline {canon(parts[1])}, a fresh timer of "
+                                       f"{kres['timer']}s started in [{now_lo:.6f}, {now_hi:.6f}] "
+                                       "is expected")
+        out = blk.output
+        if out is edzed.UNDEF or out != kres['output']:
+            return 'interlock/output', f"output {canon(out)}, expected {canon(kres['output'])}"
+        if b['kind'] == 'gfsm':
+            n = sum(1 for e in self.enters[name] if e[1] and e[2] == 'method')
+            if n != kres['enters']:
+                return 'interlock/entry-actions', (f"{n} entry action(s) ran during the start, "
+                                                   f"the transition has {kres['enters']}")
+        if not any(self.onenter[name]):
+            return 'interlock/on-enter-missing', "no on_enter event of the state entered"
+        return None, None
+
     def match_init(self, b, name, cur, now_lo, now_hi):
         kind = b['kind']
         blk = self.blocks[name]
@@ -1053,19 +1181,51 @@ class Sim:
                 self.violate('C06/restore/uninitialised', f"{name}: not initialised after the start")
                 outcomes.append('?')
                 continue
+            kres = None
+            if (b.get('kick') and pm.is_fsm(b['kind']) and 'restore' in allowed and present
+                    and pm.split_fsm_state(value) is not None):
+                # interlock: the restored output made the relay send an event back at once
+                kres = pm.apply_event(b, value, b['kick']['ev'], b['kick'].get('data', {}),
+                                      fsmlib.STR_DURATIONS)
+                if 'error' in kres:
+                    R.fired('interlock_event_fails')
+                    outcomes.append('k')
+                    continue
+                if not kres['accepted']:
+                    R.fired('reach:interlock_event_rejected')
+                    kres = None
             if any(e[0] == 'timer' for e in self.events[name]):
                 # a timer fired before the harness could look; only the firing time is judged
                 outcomes.append('F')
-                if deadline is not None and 'restore' in allowed:
-                    timers.append((name, deadline, allowed))
+                if deadline is not None and 'restore' in allowed and kres is None:
+                    timers.append((name, deadline, allowed, deadline))
                 continue
+            if pm.is_fsm(b['kind']):
+                n_handles = self.live_timers(name)
+                parts = pm.split_fsm_state(cur)
+                if parts is not None and n_handles != (0 if parts[1] is None else 1):
+                    self.violate('C06/restore/timer-handles',
+                                 f"{name}: {n_handles} timer handle(s) of the block are pending "
+                                 f"after the start, its state is {canon(cur)}")
             r_clause, r_msg = (None, None)
-            if 'restore' in allowed:
+            if 'restore' in allowed and kres is not None:
+                r_clause, r_msg = self.match_kicked(b, name, kres, cur, now_lo, now_hi)
+                if r_clause is None:
+                    outcomes.append('K')
+                    R.fired('reach:interlock_transition_at_restore')
+                    new_ts = pm.split_fsm_state(cur)[1]
+                    if new_ts is not None or deadline is not None:
+                        # let the loop run on: the new timer (if any) must be the next to fire,
+                        # nothing may fire for the block before
+                        timers.append((name, new_ts, allowed,
+                                       new_ts if new_ts is not None else deadline))
+                    continue
+            elif 'restore' in allowed:
                 r_clause, r_msg = self.match_restore(b, name, value, cur)
                 if r_clause is None:
                     if deadline is not None:
                         outcomes.append('T')
-                        timers.append((name, deadline, allowed))
+                        timers.append((name, deadline, allowed, deadline))
                         R.fired('reach:restored_with_timer')
                     else:
                         outcomes.append('R')
@@ -1106,7 +1266,8 @@ class Sim:
                 else:
                     self.violate(f"C06/restore/{r_clause}", f"{where}: {r_msg}")
             elif allowed == {'init'}:
-                r2, _ = self.match_restore(b, name, value, cur) if present else ('x', None)
+                r2, _ = self.match_restore(b, name, value, cur) if present and kres is None \
+                    else ('x', None)
                 if r2 is None:
                     self.violate(f"C06/restore/stale-state-used/{reason}",
                                  f"{where}: the saved state must be discarded ({reason}) but was "
@@ -1222,16 +1383,24 @@ def restart(R, plan, k, snap, wall_us, stats, fired_names=()):
                 fired_keys=[sim.keys[n] for n in fired_names if n in sim.keys])
             info['outcomes'] = ''.join(outcomes)
             info['by_name'] = dict(zip(sim.real_names(), outcomes))
-            timers = [t for t in timers if t[1] - now_hi <= FIRE_HORIZON]
+            timers = [t for t in timers if t[3] - now_hi <= FIRE_HORIZON]
             if timers:
                 slack = (sim.lat_us + 100 * sim.cost_us + 200) / 1e6
-                horizon = max(t[1] for t in timers) + slack + 1e-4
+                horizon = max(t[3] for t in timers) + slack + 1e-4
                 fut = loop.create_future()
                 when = (horizon * 1e9 - seams.S.wall_offset_ns) / 1e9
                 loop.call_exact(when, fut.set_result, None)
                 await fut
-                for name, deadline, allowed in timers:
+                for name, deadline, allowed, _watch in timers:
                     fires = [e for e in sim.events[name] if e[0] == 'timer']
+                    if deadline is None:
+                        # the block left its restored timed state during the start: no timer
+                        if fires:
+                            sim.violate('C06/restored-timer/stale-event',
+                                        f"{name}: timed event {fires[0][2]} delivered at "
+                                        f"{fires[0][1] / 1e6:.6f} although the state entered during "
+                                        "the start has no timer (timer of the restored state?)")
+                        continue
                     if not fires:
                         # (not when another block's failure has ended the simulation meanwhile)
                         if allowed == {'restore'} and circuit.error is None:
@@ -1356,13 +1525,33 @@ def execute(plan, trace=False):
                 storage.fail_writes[wkey] = fault['n']
             sim.send(op)
 
+        abort = plan.get('abort') or {}
+
         async def main():
             now_lo = seams.wall_now()
             simtask = asyncio.create_task(circuit.run_forever())
+            if abort.get('how') == 'harness':
+                # terminate around the first loop iteration after the start() calls
+                for _ in range(int(abort.get('steps', 1))):
+                    await asyncio.sleep(0)
+                run.fired(f"fault:terminate:{abort.get('mode')}")
+                if abort.get('mode') == 'cancel':
+                    simtask.cancel()
+                elif abort.get('mode') == 'shutdown':
+                    circuit.abort(asyncio.CancelledError('shutdown'))
+                else:
+                    circuit.abort(Injected('abort() by the application'))
             try:
                 await circuit.wait_init()
                 info['started'] = True
             except edzed.EdzedInvalidState as err:
+                run.log('init-failed', canon(err))
+            except AttributeError as err:
+                # wait_init() after an abort() that preceded the start: the simulation task ends
+                # before Circuit._init_done exists (not C06's business; counted)
+                if not abort:
+                    raise
+                run.fired('wait_init_attribute_error')
                 run.log('init-failed', canon(err))
             now_hi = seams.wall_now()
             if not info['started']:
@@ -1371,7 +1560,16 @@ def execute(plan, trace=False):
                 except (Exception, asyncio.CancelledError):     # pylint: disable=broad-except
                     pass
                 sim.ack_all()
-                run.fired('reach:start_failed' if sim.start_raised else 'reach:init_failed')
+                untouched = all(getattr(sim.blocks[n], 'init_steps_completed', 0) == 0
+                                for n in sim.real_names())
+                sim.start_failed = sim.start_raised or untouched
+                if sim.start_raised:
+                    run.fired('reach:start_failed')
+                elif untouched:
+                    run.fired('reach:terminated_before_init')
+                else:
+                    run.fired('reach:init_failed')
+                run.log('start-up', sim.start_raised, untouched)
                 return
             sim.ack_all()
             sim.check_all('after-init')
